@@ -56,16 +56,16 @@ def raw_text(raw):
 
 
 def show_bytes(data):
-    text = data.decode('utf-8', errors='surrogateescape')
-    return ''.join(f'<{ord(ch) - 0xdc00:02x}>' if 0xdc80 <= ord(ch) <= 0xdcff else ch for ch in text)
+    # byte by byte (one character per byte), so that the rendering of a concatenation is the concatenation of the renderings
+    return data.decode('latin-1')
 
 
 def out_text(cli, which):
-    return raw_text(cli[which + 'raw']) if which + 'raw' in cli else cli[which]
+    return raw_text(cli[which + 'raw']) if which + 'raw' in cli else show_bytes(cli[which].encode('utf-8'))
 
 
 def read_captured(path):
-    """the captured file as text without any newline translation; bytes that are not UTF-8 shown as <hh>"""
+    """the captured file as text without any newline translation; one character per byte"""
     with open(path, 'rb') as fobj:
         return show_bytes(fobj.read())
 
@@ -228,7 +228,7 @@ def run_model(case, driver, run):
         clis = []
         for c in spec['clis']:
             res = None if c['kind'] != 'sh' else [c['code'], out_text(c, 'out'), out_text(c, 'err')]
-            clis.append({'echo': echo_line(c), 'res': res})
+            clis.append({'echo': show_bytes(echo_line(c).encode('utf-8')), 'res': res})
         outs.append(driver.ask('runcmd', {'name': spec['name'], 'clis': clis}))
     return {'tasks': outs}
 
@@ -300,7 +300,7 @@ def oracle(case, impl, run):
         if obs['stdout'] != ''.join(out_text(c, 'out') for c in ran):
             fails.append(('output_in_order', f"stdout {obs['stdout']!r} != {''.join(out_text(c, 'out') for c in ran)!r}"))
         import re
-        exp_err = ''.join(echo_line(c) + out_text(c, 'err') for c in ran)
+        exp_err = ''.join(show_bytes(echo_line(c).encode('utf-8')) + out_text(c, 'err') for c in ran)
         if re.sub(r'/tmp/c19_[^/ ]+', '<scratch>', obs['stderr']) != exp_err:
             fails.append(('output_in_order', f"stderr {obs['stderr']!r} != {exp_err!r}"))
         if not obs['files_in_dir']:
